@@ -37,9 +37,10 @@ func init() {
 // sval is a symbolic word/field value: a literal, or a reference to an input word, or
 // the decimal print of the tick.
 type sval struct {
-	kind string // "lit", "word", "atoi" (integer parsed from word i), "tick" (Itoa of Tick), "obj", "extra", "opaque"
+	kind string // "lit", "word", "atoi" (integer parsed from word i), "tick" (Itoa of Tick), "obj", "extra", "opaque", "condextra"
 	lit  string
 	idx  int
+	alt  *[2][]sval // condextra: what is printed when Extra is non-empty / empty
 }
 
 func (v sval) String() string {
@@ -114,7 +115,7 @@ func constStr(info *types.Info, e ast.Expr) (string, bool) {
 }
 
 func checkC15(r *core.Run) {
-	r.Explanation = "Decides structural clauses of C15: (a) for every Rule literal Simbox.Add can build, the text Rule.String prints for it is re-accepted by Add and rebuilds the same (Timec, Action, Tick, Object, Extra), symbolically in tick/object/extra; (b) every loop over Simbox.Rules outside pkg/simbox tests Suspended and leaves the iteration before any other use of the element, on every CFG path; (c) every (Timec, Action) class and every config option accepted by Add is compared against by a consumer, and every SimDrive/SimReport/SimConfig table written by Init is read elsewhere. " +
+	r.Explanation = "Decides structural clauses of C15 (the print model follows a local that depends on Extra being empty and prints a rule both ways when Extra is an input word): (a) for every Rule literal Simbox.Add can build, the text Rule.String prints for it is re-accepted by Add and rebuilds the same (Timec, Action, Tick, Object, Extra), symbolically in tick/object/extra; (b) every loop over Simbox.Rules outside pkg/simbox tests Suspended and leaves the iteration before any other use of the element, on every CFG path; (c) every (Timec, Action) class and every config option accepted by Add is compared against by a consumer, and every SimDrive/SimReport/SimConfig table written by Init is read elsewhere. " +
 		"Does NOT decide: tick arithmetic, which element a name resolves to, valid-flag side effects, reported values, rule-file save/load."
 	r.Assumptions = []string{"objects and extras contain no ':'", "consumers are identified by the types.Var of field simbox.Simbox.Rules"}
 	prog := r.Load(core.LoadConfig{})
@@ -434,9 +435,16 @@ func extractString(r *core.Run, prog *core.Program, sb *packages.Package) []strC
 			exclud        []string
 			bad           string
 		}
+		condLocals := map[types.Object]*[2][]sval{}
 		var flatten func(e ast.Expr, out *[]sval)
 		flatten = func(e ast.Expr, segs *[]sval) {
 			e = ast.Unparen(e)
+			if id, ok := e.(*ast.Ident); ok {
+				if alt, ok := condLocals[info.ObjectOf(id)]; ok {
+					*segs = append(*segs, sval{kind: "condextra", alt: alt})
+					return
+				}
+			}
 			if be, ok := e.(*ast.BinaryExpr); ok && be.Op == token.ADD {
 				flatten(be.X, segs)
 				flatten(be.Y, segs)
@@ -480,6 +488,39 @@ func extractString(r *core.Run, prog *core.Program, sb *packages.Package) []strC
 				}
 			}
 			*segs = append(*segs, sval{kind: "opaque", lit: types.ExprString(e)})
+		}
+		// a local that depends on whether Extra is empty:  x := <A>; if rule.Extra != "" { x = <B> }
+		for i, st := range fd.Body.List {
+			as, ok := st.(*ast.AssignStmt)
+			if !ok || len(as.Lhs) != 1 || len(as.Rhs) != 1 || i+1 >= len(fd.Body.List) {
+				continue
+			}
+			id, ok := as.Lhs[0].(*ast.Ident)
+			if !ok {
+				continue
+			}
+			ifs, ok := fd.Body.List[i+1].(*ast.IfStmt)
+			if !ok || ifs.Else != nil || len(ifs.Body.List) != 1 {
+				continue
+			}
+			be, ok := ast.Unparen(ifs.Cond).(*ast.BinaryExpr)
+			if !ok || be.Op != token.NEQ || fieldOfRecv(be.X) != "Extra" {
+				continue
+			}
+			if lit, ok := constStr(info, be.Y); !ok || lit != "" {
+				continue
+			}
+			as2, ok := ifs.Body.List[0].(*ast.AssignStmt)
+			if !ok || len(as2.Lhs) != 1 || len(as2.Rhs) != 1 {
+				continue
+			}
+			if id2, ok := as2.Lhs[0].(*ast.Ident); !ok || info.ObjectOf(id2) != info.ObjectOf(id) {
+				continue
+			}
+			var whenEmpty, whenSet []sval
+			flatten(as.Rhs[0], &whenEmpty)
+			flatten(as2.Rhs[0], &whenSet)
+			condLocals[info.ObjectOf(id)] = &[2][]sval{whenSet, whenEmpty}
 		}
 		var walk func(stmts []ast.Stmt, c ctx)
 		walk = func(stmts []ast.Stmt, c ctx) {
@@ -611,158 +652,202 @@ func c15PrintParse(r *core.Run, shapes []addShape, cases []strCase) {
 		}
 		used[ci] = true
 		c := cases[ci]
-		// print symbolically, then split on ':'
-		var wordsOut [][]sval
-		cur := []sval{}
-		opaque := ""
+		// variants: a segment that depends on Extra being empty is printed both ways when Extra is an
+		// input word (which may be empty), one way when Add fixes it to a constant
+		type pvariant struct {
+			segs []sval
+			sh   addShape
+			tag  string
+		}
+		hasCond := false
 		for _, sg := range c.segs {
-			switch sg.kind {
-			case "lit":
-				parts := strings.Split(sg.lit, ":")
-				for k, p := range parts {
-					if k > 0 {
-						wordsOut = append(wordsOut, cur)
-						cur = []sval{}
-					}
-					if p != "" {
-						cur = append(cur, sval{kind: "lit", lit: p})
-					}
-				}
-			case "tick":
-				cur = append(cur, sh.tick) // atoi(i) prints back the digits of words[i] (modulo leading zeros/sign)
-			case "obj":
-				cur = append(cur, sh.object)
-			case "extra":
-				cur = append(cur, sh.extra)
-			default:
-				opaque = sg.lit
+			if sg.kind == "condextra" {
+				hasCond = true
 			}
 		}
-		wordsOut = append(wordsOut, cur)
-		if opaque != "" {
-			r.Undecided("C15/PRINTPARSE", inst, c.pos, "Rule.String segment not interpretable: "+opaque)
-			continue
-		}
-		// normalise each printed word: concatenation of literals, or a single symbol
-		printed := make([]sval, len(wordsOut))
-		okw := true
-		for i, w := range wordsOut {
-			lit := ""
-			var symv *sval
-			for _, p := range w {
-				p := p
-				if p.kind == "lit" {
-					lit += p.lit
+		expand := func(which int) []sval {
+			var o []sval
+			for _, sg := range c.segs {
+				if sg.kind == "condextra" {
+					o = append(o, sg.alt[which]...)
 				} else {
-					if symv != nil || lit != "" {
-						okw = false
+					o = append(o, sg)
+				}
+			}
+			return o
+		}
+		variants := []pvariant{{c.segs, sh, ""}}
+		if hasCond {
+			switch {
+			case sh.extra.kind == "lit" && sh.extra.lit == "":
+				variants = []pvariant{{expand(1), sh, ""}}
+			case sh.extra.kind == "lit":
+				variants = []pvariant{{expand(0), sh, ""}}
+			default:
+				shE := sh
+				shE.extra = sval{kind: "lit", lit: ""}
+				variants = []pvariant{{expand(0), sh, ""}, {expand(1), shE, "[last word empty]"}}
+			}
+		}
+		baseInst := inst
+		for _, pv := range variants {
+			inst := baseInst + pv.tag
+			sh := pv.sh
+			// print symbolically, then split on ':'
+			var wordsOut [][]sval
+			cur := []sval{}
+			opaque := ""
+			for _, sg := range pv.segs {
+				switch sg.kind {
+				case "lit":
+					parts := strings.Split(sg.lit, ":")
+					for k, p := range parts {
+						if k > 0 {
+							wordsOut = append(wordsOut, cur)
+							cur = []sval{}
+						}
+						if p != "" {
+							cur = append(cur, sval{kind: "lit", lit: p})
+						}
 					}
-					symv = &p
+				case "tick":
+					cur = append(cur, sh.tick) // atoi(i) prints back the digits of words[i] (modulo leading zeros/sign)
+				case "obj":
+					cur = append(cur, sh.object)
+				case "extra":
+					cur = append(cur, sh.extra)
+				default:
+					opaque = sg.lit
 				}
 			}
-			if symv != nil {
-				if lit != "" {
-					okw = false
-				}
-				printed[i] = *symv
-			} else {
-				printed[i] = sval{kind: "lit", lit: lit}
-			}
-		}
-		if !okw {
-			r.Undecided("C15/PRINTPARSE", inst, c.pos, "printed form mixes literal text and a field inside one ':'-separated word")
-			continue
-		}
-		// a trailing empty literal word stays a word for strings.Split ("config:show_pc:" has 3 words)
-		// re-parse: find the Add shapes whose conditions hold on `printed`
-		var matches []addShape
-		for _, cand := range shapes {
-			if cand.bad != "" || cand.nwords != len(printed) {
+			wordsOut = append(wordsOut, cur)
+			if opaque != "" {
+				r.Undecided("C15/PRINTPARSE", inst, c.pos, "Rule.String segment not interpretable: "+opaque)
 				continue
 			}
-			ok := true
-			for i, l := range cand.kw {
-				if i >= len(printed) || printed[i].kind != "lit" || printed[i].lit != l {
-					ok = false
+			// normalise each printed word: concatenation of literals, or a single symbol
+			printed := make([]sval, len(wordsOut))
+			okw := true
+			for i, w := range wordsOut {
+				lit := ""
+				var symv *sval
+				for _, p := range w {
+					p := p
+					if p.kind == "lit" {
+						lit += p.lit
+					} else {
+						if symv != nil || lit != "" {
+							okw = false
+						}
+						symv = &p
+					}
+				}
+				if symv != nil {
+					if lit != "" {
+						okw = false
+					}
+					printed[i] = *symv
+				} else {
+					printed[i] = sval{kind: "lit", lit: lit}
 				}
 			}
-			for i := range cand.atoi {
-				if i >= len(printed) {
-					ok = false
+			if !okw {
+				r.Undecided("C15/PRINTPARSE", inst, c.pos, "printed form mixes literal text and a field inside one ':'-separated word")
+				continue
+			}
+			// a trailing empty literal word stays a word for strings.Split ("config:show_pc:" has 3 words)
+			// re-parse: find the Add shapes whose conditions hold on `printed`
+			var matches []addShape
+			for _, cand := range shapes {
+				if cand.bad != "" || cand.nwords != len(printed) {
 					continue
 				}
-				p := printed[i]
-				if p.kind == "atoi" {
-					continue
+				ok := true
+				for i, l := range cand.kw {
+					if i >= len(printed) || printed[i].kind != "lit" || printed[i].lit != l {
+						ok = false
+					}
 				}
-				if p.kind == "lit" {
-					if _, err := strconv.Atoi(p.lit); err == nil {
+				for i := range cand.atoi {
+					if i >= len(printed) {
+						ok = false
 						continue
 					}
-				}
-				ok = false
-			}
-			if ok {
-				matches = append(matches, cand)
-				break // first full match in source order wins
-			}
-		}
-		ptxt := make([]string, len(printed))
-		for i, p := range printed {
-			switch p.kind {
-			case "lit":
-				ptxt[i] = p.lit
-			case "word":
-				ptxt[i] = fmt.Sprintf("<w%d>", p.idx)
-			case "atoi":
-				ptxt[i] = fmt.Sprintf("<n%d>", p.idx)
-			}
-		}
-		ptext := strings.Join(ptxt, ":")
-		if len(matches) == 0 {
-			r.Violation("C15/PRINTPARSE", inst, c.pos, fmt.Sprintf("rule built from %q prints as %q, which Simbox.Add does not accept: print-then-parse loses the rule", sh.key(), ptext))
-			continue
-		}
-		m := matches[0]
-		resolve := func(v sval) sval { // value of a field of the re-parsed rule in terms of the ORIGINAL input words
-			switch v.kind {
-			case "word":
-				return printed[v.idx]
-			case "atoi":
-				p := printed[v.idx]
-				if p.kind == "atoi" {
-					return p
-				}
-				if p.kind == "lit" {
-					if n, err := strconv.Atoi(p.lit); err == nil {
-						return sval{kind: "lit", lit: strconv.Itoa(n)}
+					p := printed[i]
+					if p.kind == "atoi" {
+						continue
 					}
+					if p.kind == "lit" {
+						if _, err := strconv.Atoi(p.lit); err == nil {
+							continue
+						}
+					}
+					ok = false
 				}
-				return sval{kind: "opaque"}
+				if ok {
+					matches = append(matches, cand)
+					break // first full match in source order wins
+				}
 			}
-			return v
-		}
-		same := func(a, b sval) bool { return a.kind == b.kind && a.lit == b.lit && a.idx == b.idx && a.kind != "opaque" }
-		var diffs []string
-		if m.timec != sh.timec {
-			diffs = append(diffs, fmt.Sprintf("Timec %s→%s", sh.timecN, m.timecN))
-		}
-		if m.action != sh.action {
-			diffs = append(diffs, fmt.Sprintf("Action %s→%s", sh.actionN, m.actionN))
-		}
-		if !same(resolve(m.tick), sh.tick) {
-			diffs = append(diffs, fmt.Sprintf("Tick %v→%v", sh.tick, resolve(m.tick)))
-		}
-		if !same(resolve(m.object), sh.object) {
-			diffs = append(diffs, fmt.Sprintf("Object %v→%v", sh.object, resolve(m.object)))
-		}
-		if !same(resolve(m.extra), sh.extra) {
-			diffs = append(diffs, fmt.Sprintf("Extra %v→%v", sh.extra, resolve(m.extra)))
-		}
-		if len(diffs) > 0 {
-			r.Violation("C15/PRINTPARSE", inst, c.pos, fmt.Sprintf("rule built from %q prints as %q, which parses back to a different rule: %s", sh.key(), ptext, strings.Join(diffs, ", ")))
-		} else {
-			r.OK("C15/PRINTPARSE", inst, sh.pos, fmt.Sprintf("prints as %q, re-accepted by shape %q with equal fields", ptext, m.key()))
+			ptxt := make([]string, len(printed))
+			for i, p := range printed {
+				switch p.kind {
+				case "lit":
+					ptxt[i] = p.lit
+				case "word":
+					ptxt[i] = fmt.Sprintf("<w%d>", p.idx)
+				case "atoi":
+					ptxt[i] = fmt.Sprintf("<n%d>", p.idx)
+				}
+			}
+			ptext := strings.Join(ptxt, ":")
+			if len(matches) == 0 {
+				r.Violation("C15/PRINTPARSE", inst, c.pos, fmt.Sprintf("rule built from %q prints as %q, which Simbox.Add does not accept: print-then-parse loses the rule", sh.key(), ptext))
+				continue
+			}
+			m := matches[0]
+			resolve := func(v sval) sval { // value of a field of the re-parsed rule in terms of the ORIGINAL input words
+				switch v.kind {
+				case "word":
+					return printed[v.idx]
+				case "atoi":
+					p := printed[v.idx]
+					if p.kind == "atoi" {
+						return p
+					}
+					if p.kind == "lit" {
+						if n, err := strconv.Atoi(p.lit); err == nil {
+							return sval{kind: "lit", lit: strconv.Itoa(n)}
+						}
+					}
+					return sval{kind: "opaque"}
+				}
+				return v
+			}
+			same := func(a, b sval) bool {
+				return a.kind == b.kind && a.lit == b.lit && a.idx == b.idx && a.kind != "opaque"
+			}
+			var diffs []string
+			if m.timec != sh.timec {
+				diffs = append(diffs, fmt.Sprintf("Timec %s→%s", sh.timecN, m.timecN))
+			}
+			if m.action != sh.action {
+				diffs = append(diffs, fmt.Sprintf("Action %s→%s", sh.actionN, m.actionN))
+			}
+			if !same(resolve(m.tick), sh.tick) {
+				diffs = append(diffs, fmt.Sprintf("Tick %v→%v", sh.tick, resolve(m.tick)))
+			}
+			if !same(resolve(m.object), sh.object) {
+				diffs = append(diffs, fmt.Sprintf("Object %v→%v", sh.object, resolve(m.object)))
+			}
+			if !same(resolve(m.extra), sh.extra) {
+				diffs = append(diffs, fmt.Sprintf("Extra %v→%v", sh.extra, resolve(m.extra)))
+			}
+			if len(diffs) > 0 {
+				r.Violation("C15/PRINTPARSE", inst, c.pos, fmt.Sprintf("rule built from %q%s prints as %q, which parses back to a different rule: %s", sh.key(), pv.tag, ptext, strings.Join(diffs, ", ")))
+			} else {
+				r.OK("C15/PRINTPARSE", inst, sh.pos, fmt.Sprintf("prints as %q, re-accepted by shape %q with equal fields", ptext, m.key()))
+			}
 		}
 	}
 	for i, c := range cases {
@@ -1215,7 +1300,6 @@ func fieldReadOutside(prog *core.Program, f *types.Var, except *ast.FuncDecl) st
 	}
 	return ""
 }
-
 
 // c15RulePure (C15/RULEPURE): a rule is applied exactly as written only if nobody rewrites it on the
 // way: outside pkg/simbox (which parses and edits the list on the user's behalf) no code may assign to
